@@ -14,7 +14,7 @@
    (C11_registered_spec).  No hypothesis on histories: repeats, removals of unknown pairs
    and unparsable crontabs are all included. *)
 From Coq Require Import Permutation.
-From Verif Require Import Common C11_Model C11_Spec C11_Proofs C11_Hm C11_HmSpec C11_HmProofs.
+From Verif Require Import Common C11_Model C11_Spec C11_Proofs C11_Hm C11_HmSpec C11_HmProofs C11_IdProofs.
 
 (* the whole decidable predicate P of C11_Spec (cron entries after every operation of a
    system of hooks sharing one manager; per-hook answers to every firing - a string
@@ -361,4 +361,108 @@ Example C11_hm_hyp_met :
      = snd (fold_left (spec_step (i_hooks ex_late)) [OEnable 1; OEnable 0]%N (spec_init (i_hooks ex_late))).
 Proof.
   repeat split; try (vm_compute; reflexivity). vm_compute. now left.
+Qed.
+
+(* ---- the identity under which schedule bindings are registered (C11_Hm: hm_load, load_input,
+   run_op; C11_HmSpec: B_from, P_op) ----
+   The schedule manager counts the references to a crontab by the ids registered for it; the
+   ids come from the hooks' configurations (pkg/hook/config: ConvertSchedule / ScheduleID).
+   [hm_load hooks]: the hooks as loaded - every schedule binding of every hook with an id of
+   its own; [load_input i] / [run_op i]: the case as the operator sees it and its run.
+   Hooks may share binding names (unnamed bindings are all called "schedule"), positions in
+   their schedule lists, crontabs, queues - anything. *)
+
+(* the loader: one id per (hook, binding) - no two bindings of any hooks share one - and
+   nothing else a binding is configured with is changed *)
+Theorem C11_loaded_ids_one_per_hook_binding : forall hooks,
+  NoDup (binding_ids (hm_load hooks))
+  /\ map (map (set_id 0)) (hm_load hooks) = map (map (set_id 0)) hooks.
+Proof. exact load_one_id_each_and_keeps. Qed.
+Print Assumptions C11_loaded_ids_one_per_hook_binding.
+
+(* the whole predicate P_op of the operator-level class - P_hm, and after every operation:
+   a crontab has one cron entry iff it is parsable and some ENABLED (hook, binding) has it or an
+   id registered for it by hand is still there, none otherwise - holds of the model on EVERY
+   input: all configurations of hooks sharing names, positions, crontabs; all interleavings of
+   enable / disable / add / remove / firings *)
+Theorem C11_op_P_holds : forall i, P_op (load_input i) (run_op i) = true.
+Proof. exact P_op_holds. Qed.
+Print Assumptions C11_op_P_holds.
+
+(* the same for any ids that are one per (hook, binding) *)
+Theorem C11_op_P_holds_for_distinct_ids : forall i,
+  NoDup (binding_ids (i_hooks i)) -> P_op i (run_hm i) = true.
+Proof. exact P_op_holds_nodup. Qed.
+Print Assumptions C11_op_P_holds_for_distinct_ids.
+
+(* in words.  After ANY sequence of operations in which nobody adds or removes a binding's own
+   (crontab, id) pair by hand ([no_meddling]; [en]: which hooks are enabled, [hand]: the pairs
+   registered by hand): crontab c has a cron entry iff it is parsable and some enabled
+   (hook, binding) has it (or an id registered by hand); and then exactly one *)
+Theorem C11_entry_iff_some_enabled_hook_binding : forall i ops c,
+  let s := fold_left (fun s o => fst (sys_step i s o)) ops (sys_init i) in
+  let en := fold_left en_step ops (map (fun _ => false) (i_hooks i)) in
+  let hand := fold_left hand_step ops [] in
+  NoDup (binding_ids (i_hooks i)) -> no_meddling (i_hooks i) ops ->
+  ((exists e, In (e, c) (cron (s_sm s)))
+   <-> valid_of (i_invalid i) c = true
+       /\ ((exists h b, nth h en false = true /\ In b (nth h (i_hooks i) []) /\ b_crontab b = c)
+           \/ exists id, In (c, id) hand))
+  /\ cron_count c (s_sm s)
+     = (if valid_of (i_invalid i) c && (enabled_has c (i_hooks i) en || has_binding c hand) then 1 else 0)%nat.
+Proof. exact entry_iff_enabled_binding. Qed.
+Print Assumptions C11_entry_iff_some_enabled_hook_binding.
+
+(* "keeps firing while at least one binding is registered": a binding of an enabled hook on a
+   parsable crontab has its cron entry and gets its task in a round of firings, whichever hooks
+   sharing that crontab - with bindings of the same name at the same position - were disabled
+   meanwhile *)
+Theorem C11_sharer_keeps_firing : forall i ops h b,
+  let s := fold_left (fun s o => fst (sys_step i s o)) ops (sys_init i) in
+  let en := fold_left en_step ops (map (fun _ => false) (i_hooks i)) in
+  NoDup (binding_ids (i_hooks i)) -> no_meddling (i_hooks i) ops ->
+  nth h en false = true -> In b (nth h (i_hooks i) []) ->
+  valid_of (i_invalid i) (b_crontab b) = true ->
+  cron_count (b_crontab b) (s_sm s) = 1%nat
+  /\ In (task_of_binding (N.of_nat h) b) (hm_tasks (i_hooks i) (s_links s) (map snd (cron (s_sm s)))).
+Proof. exact sharer_keeps_firing. Qed.
+Print Assumptions C11_sharer_keeps_firing.
+
+(* non-vacuity.  Three hooks as written in their configurations (the ids there are of no
+   account: all 0).  Hooks 0 and 1 both have an UNNAMED FIRST binding on c2 (hook 1's in queue
+   2); hook 2 has three unnamed bindings on c2, c3, c1 with different queue / allowFailure /
+   group / snapshots.  Loaded, the six bindings have the ids 11..16.  Both sharers are enabled,
+   hook 0 is disabled: c2 keeps its cron entry and its firing yields hook 1's task; hook 2 is
+   enabled: a firing of c3 yields the task of ITS SECOND binding (queue 3, allowFailure, group
+   5), not one made from a namesake; when hooks 1 and 2 are disabled too, c2 has no entry. *)
+Definition ex_same : input :=
+  mkIn [ [mkB 0 c2 0 0 false [] 0];
+         [mkB 0 c2 0 0 false [] 2];
+         [mkB 0 c2 0 0 false [] 1; mkB 0 c3 0 5 true [101] 3; mkB 0 c1 0 6 false [102] 0] ]%N
+       [] [c1; c2; c3]
+       [OEnable 0; OEnable 1; OTick 0; ODisable 0; OTick 0; OEnable 2; OFire c3; ODisable 1; ODisable 2; OTickAll]%N.
+
+Example C11_op_hyp_met :
+  loaded_ids ex_same = [[11]; [12]; [13; 14; 15]]%N
+  /\ NoDup (binding_ids (i_hooks (load_input ex_same)))
+  /\ no_meddling (i_hooks (load_input ex_same)) (i_ops ex_same)
+  /\ map h_tasks (run_op ex_same)
+     = [ []; [];
+         [task_of_binding 0 (mkB 11 c2 0 0 false [] 0); task_of_binding 1 (mkB 12 c2 0 0 false [] 2)];
+         []; [task_of_binding 1 (mkB 12 c2 0 0 false [] 2)];
+         []; [task_of_binding 2 (mkB 14 c3 0 5 true [101] 3)];
+         []; []; [] ]%N
+  /\ map (fun o => o_cron (h_obs o)) (run_op ex_same)
+     = [ [(1, c2)]; [(1, c2)]; [(1, c2)]; [(1, c2)]; [(1, c2)];
+         [(1, c2); (2, c3); (3, c1)]; [(1, c2); (2, c3); (3, c1)]; [(1, c2); (2, c3); (3, c1)]; []; [] ]%N
+  (* the hypotheses of C11_sharer_keeps_firing after [OEnable 0; OEnable 1; OTick 0; ODisable 0] *)
+  /\ (let ops := [OEnable 0; OEnable 1; OTick 0; ODisable 0]%N in
+      fold_left en_step ops (map (fun _ => false) (i_hooks (load_input ex_same))) = [false; true; false]
+      /\ In (mkB 12 c2 0 0 false [] 2)%N (nth 1 (i_hooks (load_input ex_same)) [])
+      /\ valid_of (i_invalid ex_same) c2 = true).
+Proof.
+  split; [vm_compute; reflexivity|]. split; [apply load_one_id_each|].
+  split; [intros o Ho; vm_compute in Ho; repeat (destruct Ho as [<-|Ho]; [reflexivity|]); contradiction|].
+  split; [vm_compute; reflexivity|]. split; [vm_compute; reflexivity|].
+  split; [vm_compute; reflexivity|]. split; [vm_compute; now left | vm_compute; reflexivity].
 Qed.
